@@ -110,7 +110,7 @@ fn has_nested_bytes(ty: &Ty, v: &Val, inside: bool) -> bool {
 pub fn run(rep: &Report) -> i32 {
     let quick = rep.is_quick();
     let types = value_types(quick);
-    let cap = if quick { 40 } else { 600 };
+    let cap = if quick { 300 } else { 4000 };
     rep.set("bounds", json!({"value_types": types.len(), "values_per_type_cap": cap, "map_sizes": "0..6", "byte_array_lengths": "0..64"}));
     // (1) values
     par_for(&types, rep, 4, |i, ty| {
